@@ -1,6 +1,7 @@
 package harness
 
 import (
+	"encoding/json"
 	"fmt"
 	"os"
 	"path/filepath"
@@ -56,6 +57,12 @@ type C13Case struct {
 	// inserted at drawn positions; the input path is the file itself, not a directory
 	Single    string `json:",omitempty"`
 	SingleBad int    `json:",omitempty"`
+	// ListFile: a file of Dirty that is ONE `kind: List` document whose items are an unused kind, ListJunk items that
+	// are no manifests at all (no kind) and - ListNoAPI - a Deployment item without apiVersion carrying the labels of a
+	// real workload (the reader rejects each such item; none may join the analysis, and the file must be reported)
+	ListFile  string `json:",omitempty"`
+	ListJunk  int    `json:",omitempty"`
+	ListNoAPI bool   `json:",omitempty"`
 	// Multi: broken files of Dirty that hold several unreadable documents (file name -> number of documents)
 	Multi map[string]int `json:",omitempty"`
 	// CLI: the stop-on-error clause is also observed at the built binary (`list --fail` next to other options)
@@ -162,6 +169,29 @@ func genC13(t *rapid.T) *C13Case {
 	wb := editWorld(t, w)
 	c.CleanB = wb.YAML()
 	c.Dirty, c.Broken, c.Conv, c.Multi = c13Inject(t, "a", worldDocStrings(w), c.Fatal, w.Workloads)
+	if rapid.IntRange(0, 2).Draw(t, "listjunk") == 0 {
+		c.ListFile = rapid.SampledFrom([]string{"exported-list.yaml", "sub/exported-list.yml"}).Draw(t, "listfile")
+		c.ListJunk = rapid.IntRange(1, 2).Draw(t, "listjunkn")
+		items := []string{"- apiVersion: v1\n  kind: ConfigMap\n  metadata: {name: settings}\n  data: {k: v}\n"}
+		for j := 0; j < c.ListJunk; j++ {
+			items = append(items, fmt.Sprintf("- note: n%d\n  reviewer: team-%c\n", j, 'a'+j))
+		}
+		if len(w.Workloads) > 0 && rapid.Bool().Draw(t, "listnoapi") {
+			c.ListNoAPI = true
+			x := w.Workloads[rapid.IntRange(0, len(w.Workloads)-1).Draw(t, "listnoapiof")]
+			lab := "{}"
+			if len(x.Labels) > 0 {
+				b, _ := json.Marshal(x.Labels)
+				lab = string(b)
+			}
+			items = append(items, fmt.Sprintf("- kind: Deployment\n  metadata: {name: sneaky, namespace: %s}\n  spec:\n    selector: {matchLabels: %s}\n    template:\n      metadata: {labels: %s}\n      spec: {containers: [{name: c, image: x}]}\n", x.Ns, lab, lab))
+		}
+		for j := len(items) - 1; j > 0; j-- {
+			k := rapid.IntRange(0, j).Draw(t, fmt.Sprintf("listperm%d", j))
+			items[j], items[k] = items[k], items[j]
+		}
+		c.Dirty = append(c.Dirty, C12File{Path: c.ListFile, Content: "apiVersion: v1\nkind: List\nitems:\n" + strings.Join(items, "")})
+	}
 	if rapid.IntRange(0, 3).Draw(t, "single") == 0 {
 		docs := worldDocStrings(w)
 		c.SingleBad = rapid.IntRange(1, 2).Draw(t, "singlebad")
@@ -270,12 +300,45 @@ func checkC13(c *C13Case, st *VStats) *VFailure {
 		st.Class("the input path is one multi-document file")
 	}
 	nBad := len(c.Broken) + len(c.Conv)
+	dirtyNoList := ""
+	if c.ListFile != "" {
+		nBad += c.ListJunk
+		var rest []C12File
+		for _, f := range c.Dirty {
+			if f.Path != c.ListFile {
+				rest = append(rest, f)
+			}
+		}
+		dirtyNoList = writeFiles(rest)
+		defer os.RemoveAll(dirtyNoList)
+	}
 	for _, via := range []bool{false, true} {
 		what := "ConnlistFromDirPath"
 		if via {
 			what = "ConnlistFromResourceInfos"
 		}
 		got := RunList(dirty, ListOpts{ViaInfos: via})
+		if c.ListFile != "" && got.Panic == nil && got.Err == nil && !c.Fatal {
+			// the items of the List that are no manifests are reported: the run has more severe entries (or, through the
+			// resource-info entry point, scanner errors) than the same input without that file
+			ref := RunList(dirtyNoList, ListOpts{ViaInfos: via})
+			nsev := func(r *ListRes) int {
+				n := 0
+				for _, e := range r.Errs {
+					if e.Severe {
+						n++
+					}
+				}
+				if via {
+					n += len(r.ScanErrs)
+				}
+				return n
+			}
+			st.Class("a List document with items that are no manifests")
+			if ref.Panic == nil && ref.Err == nil && nsev(got) <= nsev(ref) {
+				return vfail("%s: the file %q is a List holding %d items without a kind (and a Deployment item without apiVersion: %v), but the run reports no more severe entries (%d) than the same input without that file (%d); entries: %+v; scanner errors: %v", what, c.ListFile, c.ListJunk, c.ListNoAPI, nsev(got), nsev(ref), got.Errs, got.ScanErrs)
+			}
+		}
 		if got.Panic != nil {
 			return &VFailure{Msg: fmt.Sprintf("%s panicked on the injected input: %v", what, got.Panic), Sig: "panic"}
 		}
